@@ -321,6 +321,16 @@ def gen_cases(tier, seed):
             st = 'all' if size < T else str(C * rng.randrange(0, (size + C - 1) // C))
             spec['plan']['faults'] = [{'at': f't0/s3:GetObject:{st}#0', 'phase': 'body', 'bytes': rng.randrange(0, C), 'kind': 'connreset', 'tag': 'FAULT-e2e'}]
         cases.append({'type': 'e2e', 'spec': spec})
+    # a non-blocking stream destination whose reader falls behind: a write takes part of the data and raises BlockingIOError
+    for i in range(30 if quick else 300):
+        C = rng.choice([4, 8])
+        T = rng.choice([C, 100])
+        size = rng.choice([2 * C + 1, 4 * C, 5 * C + 3])
+        cfg = dict(multipart_threshold=T, multipart_chunksize=C, io_chunksize=rng.choice([2, 4, C]), max_request_concurrency=rng.choice([1, 2, 3]),
+                   max_in_memory_download_chunks=rng.choice([1, 2, 3]))
+        spec = {'seed': rng.randrange(1 << 30), 'config': cfg, 'transfers': [{'kind': 'download', 'dst': 'nonseekable', 'size': size}], 'family': 'partial-write',
+                'plan': {'faults': [{'at': f't0/dst:write#{rng.randrange(0, 4)}', 'phase': 'before', 'kind': 'blockingio', 'tag': 'FAULT-blocking'}]}}
+        cases.append({'type': 'e2e', 'spec': spec})
     for c in cases:
         if c['type'] == 'mgr' and c['mode'] == 'immediate':
             c['parts'] = 1
@@ -336,8 +346,20 @@ def e2e_evaluate(obs):
     stats = {'e2e_runs': 1, 'e2e_writes': 0, 'e2e_fifo': 0, 'e2e_symlinked_fifo': 0}
     for x in obs.xfers:
         viol += oracles.content_oracle(obs, x)
-        if x.outcome != 'success':
+        injected = [r for r in obs.world.director.raised if r['kind'] == 'blockingio']
+        stats['e2e_partial_write_faults'] = stats.get('e2e_partial_write_faults', 0) + len(injected)
+        if x.outcome != 'success' and not injected:
             viol.append(V(f'{x.label}: download to a streaming destination ended {x.outcome}: {x.exc!r}', sym='e2e-failed', dst=x.spec.get('dst')))
+        if x.fifo_reader is None and hasattr(x.dest, 'getvalue'):
+            # whatever the outcome: what the stream has received is the object from byte 0 on, every position once (a destination
+            # that took only part of a write and refused the rest must not be sent the accepted part again)
+            got = x.dest.getvalue()
+            if got != x.data[:len(got)]:
+                i = 0
+                while i < min(len(got), len(x.data)) and got[i] == x.data[i]:
+                    i += 1
+                viol.append(V(f'{x.label}: the stream received {len(got)} bytes that are not a prefix of the object (first difference at {i}; outcome '
+                              f'{x.outcome}; partial-write faults {len(injected)})', sym='e2e-not-a-prefix', partial_write_fault=bool(injected)))
         if x.fifo_reader is not None:
             stats['e2e_fifo'] += 1
             stats['e2e_symlinked_fifo'] += 1 if x.spec.get('symlink') else 0
